@@ -281,7 +281,7 @@ var advPaths = []string{
 }
 
 var advCT = []string{"", ";", ",", ";;;", ",,,", "*/*", "APPLICATION/JSON", "application/json;", " application/json", "application/json ;charset=utf-8", "text/plain , application/json",
-	"application/json,application/xml", "application/jsonx", "json", "application/*", "a/b;q=1;q=2", "\tapplication/json", "application/json\t", "ünï/cödé", strings.Repeat("x", 3000)}
+	"application/json,application/xml", "application/json;q=high, application/xml;q=0.5", "application/xml;q=x,application/json", "application/jsonx", "json", "application/*", "a/b;q=1;q=2", "\tapplication/json", "application/json\t", "ünï/cödé", strings.Repeat("x", 3000)}
 
 // mediaHeader writes a Content-Type / Accept value around a wanted media type.
 func mediaHeader(r *core.Rand, want string, accept bool) string {
